@@ -486,6 +486,34 @@ func cacheStream(cfg *Config) *hx.Stats {
 					return 0
 				}
 			}(),
+			// the cache is dropped while slabs are dirty (no commit in between): a slab already in the
+			// ledger is then reachable only through the write set or a live handle
+			"dropcache-while-dirty": func(i int) int {
+				if i == 0 {
+					return 0
+				}
+				if i%9 == 8 {
+					return 1
+				}
+				return 2
+			},
+			"random-with-dirty-drops": func() func(i int) int {
+				r := rand.New(rand.NewSource(rng.Int63()))
+				return func(i int) int {
+					if i == 0 {
+						return 0
+					}
+					switch r.Intn(8) {
+					case 0:
+						return 1
+					case 1, 2, 3:
+						return 2
+					case 4:
+						return 4
+					}
+					return 0
+				}
+			}(),
 			"every-7th": func(i int) int {
 				if i%7 == 6 {
 					return 4
@@ -520,7 +548,7 @@ func cacheStream(cfg *Config) *hx.Stats {
 		}
 	}
 	st.Distinct = len(distinct) + 1
-	st.Samples = append(st.Samples, "script of 250 array/map ops under schedules never / commit after every op / commit+drop cache / commit+reopen after every op / random / periodic; observations, final content, structural validity and final registers compared")
+	st.Samples = append(st.Samples, "script of 250 array/map ops under schedules never / commit after every op / commit+drop cache / commit+reopen after every op / random / periodic / cache dropped while dirty; observations, final content, structural validity and final registers compared")
 	atree.VerifSetThreshold(1024)
 	return st
 }
